@@ -26,7 +26,7 @@ PROPERTY = {
         "parse(), emit() and _collect_required_libraries() are deterministic functions of their argument that may raise "
         "(ValueError stands for any exception they raise); file-system calls do not fail",
         "the stderr note about the Servo library is not an effect the property talks about",
-        "write_project / validate_platform_board: contracts proved under C13 (used here, not re-proved)",
+        "write_project / validate_platform_board: contracts owned by C13, re-proved in this run (obligations C12/dep-C13/...)",
     ],
 }
 
